@@ -5,8 +5,9 @@
       list is removed_ filtered by "was removable on the INITIAL disk", the counter is its length,
       the disk is the initial disk minus the reported files (dry run: the initial disk).
    2. [adds dry X s s']: s' is s after Remove() was attempted on exactly the paths X (for the
-      fold-shaped scopes: all / rules / dead); the DFS of DoCleanTarget is handled by [tgt_post]
-      with the post-order invariant [closed] on cleaned_.
+      fold-shaped scopes: all / rules / dead); the DFS of DoCleanTarget (node marked on entry) is handled
+      by [tgt_post] with the gray/black invariant [dfs_inv] on cleaned_; termination on every graph by
+      a pigeonhole on the recursion stack.
    3. The C18 theorems, per scope.  Spec side ("the tidy thing"): [edge_paths], [all_scope],
       [reach]/[target_scope], [rule_scope], [dead_scope]. *)
 From NinjaV Require Import Base.Bytes Clean.CleanDefs.
